@@ -18,3 +18,8 @@ Theorem C04_returns_now : forall nq mx scripts tr s,
     forallb actor_done s.(actors) = true.
 Proof. exact (C04_sync_returns_pool_partial gen_tables gen_facts cl_core cl_own cl_dormant_blocks). Qed.
 Print Assumptions C04_returns_now.
+
+(* finding F6: like a pool thread (g_next), a caller waiting in sync may take over a queue that is waiting for its draining future to be
+   polled again - the future may have been dropped, or its task may be the very thread that now waits in sync *)
+Lemma cl_claim_takes_waiting_for_poll : forall f, g_claim (WaitingForPoll f) = Some Running /\ g_next (WaitingForPoll f) = Some Running.
+Proof. intro f. split; reflexivity. Qed.
